@@ -9,10 +9,10 @@ def addPageNet (pg subno : Nat) (n : Net) : Net :=
   let n : Net := { n with nRef := n.nRef + 1, zombie := false, nCached := n.nCached + 1 }
   let n : Net := if n.nCached > n.maxCached then { n with maxCached := n.nCached } else n
   let ps := n.getStat pg
-  let ps : PStat := { ps with nSub := (ps.nSub + 1) % 256 }
+  let ps : PStat := { ps with nSub := (ps.nSub + 1) % 65536 }
   let ps : PStat := if ps.nSub > ps.maxSub then { ps with maxSub := ps.nSub } else ps
-  let ps : PStat := if ps.subMin = 0 ∨ subno < ps.subMin then { ps with subMin := subno % 65536 } else ps
-  let ps : PStat := if subno > ps.subMax then { ps with subMax := subno % 65536 } else ps
+  let ps : PStat := if ps.nSub = 1 ∨ subno < ps.subMin then { ps with subMin := subno % 65536 } else ps
+  let ps : PStat := if ps.nSub = 1 ∨ subno > ps.subMax then { ps with subMax := subno % 65536 } else ps
   n.setStat pg ps
 
 theorem addPageNet_id (pg subno : Nat) (n : Net) : (addPageNet pg subno n).id = n.id := by
@@ -26,7 +26,7 @@ theorem addPageNet_ref (pg subno : Nat) (n : Net) : (addPageNet pg subno n).ref 
 theorem addPageNet_zombie (pg subno : Nat) (n : Net) : (addPageNet pg subno n).zombie = false := by
   unfold addPageNet; simp only; split <;> rfl
 theorem addPageNet_nSub (pg subno pg' : Nat) (n : Net) : ((addPageNet pg subno n).getStat pg').nSub
-    = if pg' = pg then ((n.getStat pg).nSub + 1) % 256 else (n.getStat pg').nSub := by
+    = if pg' = pg then ((n.getStat pg).nSub + 1) % 65536 else (n.getStat pg').nSub := by
   unfold addPageNet; simp only [getStat_setStat]
   split
   · split <;> split <;> split <;> split <;> rfl
@@ -104,7 +104,7 @@ theorem addPage_invW {s : State} (h : InvW s) {n : Net} (hn : n ∈ s.nets) (p :
     · have : ¬ p.net = m.id := fun x => e (hpnet ▸ x).symm
       simp only [this, false_and, decide_false, Bool.false_eq_true, if_false]; omega
   · intro n' hn' pg; obtain ⟨m, hm', rfl⟩ := (hmemnet n').1 hn'
-    show _ = (p :: s.pages).countP _ % 256
+    show _ = (p :: s.pages).countP _ % 65536
     rw [hid, List.countP_cons]
     have h1 := h.nSub m hm' pg
     split <;> rename_i e
@@ -181,10 +181,10 @@ def netAddFn (pg subno : Nat) (n : Net) : Net :=
   let n : Net := { n with nCached := n.nCached + 1 }
   let n : Net := if n.nCached > n.maxCached then { n with maxCached := n.nCached } else n
   let ps := n.getStat pg
-  let ps : PStat := { ps with nSub := (ps.nSub + 1) % 256 }
+  let ps : PStat := { ps with nSub := (ps.nSub + 1) % 65536 }
   let ps : PStat := if ps.nSub > ps.maxSub then { ps with maxSub := ps.nSub } else ps
-  let ps : PStat := if ps.subMin = 0 ∨ subno < ps.subMin then { ps with subMin := subno % 65536 } else ps
-  let ps : PStat := if subno > ps.subMax then { ps with subMax := subno % 65536 } else ps
+  let ps : PStat := if ps.nSub = 1 ∨ subno < ps.subMin then { ps with subMin := subno % 65536 } else ps
+  let ps : PStat := if ps.nSub = 1 ∨ subno > ps.subMax then { ps with subMax := subno % 65536 } else ps
   n.setStat pg ps
 
 theorem netAddPage_eq {s : State} (hnd : NidsNodup s.nets) {n : Net} (hn : n ∈ s.nets) (pg subno : Nat) :
